@@ -214,6 +214,9 @@ class Ctx:
                 raise sym.CannotAnalyse('no body %s' % name)
             ex = sym.Explorer(f, b, self.purity(config), inline=inline, opaque=opaque, expand=expand, atomic=atomic)
             self._paths[key] = (b, ex.explore())
+            if not hasattr(self, '_seen_bodies'):
+                self._seen_bodies = {}
+            self._seen_bodies[key] = set(ex.seen_bodies)
         return self._paths[key]
 
 
@@ -292,6 +295,10 @@ class Report:
                         reason='cannot-tabulate')
             return None, []
         self.analysed.add(b.id)
+        # helper bodies that were evaluated as part of this one (inlined accessors, expanded helpers, applied closures)
+        for k_, s_ in getattr(ctx, '_seen_bodies', {}).items():
+            if k_[0] == name and k_[1] == (kw.get('config') or ctx.config):
+                self.analysed |= s_
         self.paths_enumerated += len(ps)
         return b, ps
 
